@@ -160,5 +160,347 @@ theorem FldRel.out {env : Env} {n0 : Nat} : ∀ {fs : Ty} {xs ys : Val}, FldRel 
     | _ => simp [FldRel] at h
   | _ => intro xs ys h; simp [FldRel] at h
 
+/-! ## Map entries: images of distinct keys are distinct -/
+
+theorem goEq_of_rel {env : Env} (hf : env.flagsOk = true) {n0 : Nat} {K : Ty} {k k' : Val}
+    (hc : canEqual env K = true) (hk : hasType env K k = true) (r : Rel1 env n0 K k k') :
+    goEq k k' = true := by
+  rw [goEq_eq_structEq hf k' hc hk]; exact r.2.1
+
+/-- `k ~ k'`, `kd ~ kd'` and `kd ≠ k` give `k' ≠ kd'` (Go `==` is a partial equivalence on typed values) -/
+theorem key_transfer {env : Env} (hf : env.flagsOk = true) {K : Ty} {k k' kd kd' : Val}
+    (hc : canEqual env K = true) (hk : hasType env K k = true) (hk' : hasType env K k' = true)
+    (hd : hasType env K kd = true) (hd' : hasType env K kd' = true)
+    (e1 : goEq k k' = true) (e2 : goEq kd kd' = true) (hne : goEq kd k = false) :
+    goEq k' kd' = false := by
+  cases h : goEq k' kd' with
+  | false => rfl
+  | true =>
+    have h1 : goEq k kd' = true := goEq_trans hf hc hk hk' e1 h
+    have h2 : goEq kd' kd = true := by rw [goEq_symm hf hc hd' hd]; exact e2
+    have h3 : goEq k kd = true := goEq_trans hf hc hk hd' h1 h2
+    rw [goEq_symm hf hc hk hd] at h3
+    rw [h3] at hne; cases hne
+
+/-- every key of the spine differs from `k` (the spine's keys on the left of `==`) -/
+def preFresh (k : Val) : Val → Bool
+  | .scons (.pair kd _) r => !goEq kd k && preFresh k r
+  | _ => true
+
+theorem keyFresh_sapp {env : Env} {K V : Ty} {kd k v r : Val} : ∀ t : Val,
+    entriesHaveType env K V t = true → keyFresh kd (sapp t (.scons (.pair k v) r)) = true →
+    goEq kd k = false := by
+  intro t
+  induction t with
+  | snil => intro _ h; simp [sapp, keyFresh] at h; exact h.1
+  | scons e t' _ iht =>
+    intro ht h
+    rcases entriesHaveType_inv ht with h0 | ⟨k1, v1, r1, he, _, _, hr⟩
+    · cases h0
+    · cases he
+      rw [sapp_scons] at h
+      simp only [keyFresh, Bool.and_eq_true] at h
+      exact iht hr h.2
+  | _ => intro ht; simp [entriesHaveType] at ht
+
+theorem preFresh_of_distinct {env : Env} {K V : Ty} {k v r : Val} : ∀ pre : Val,
+    entriesHaveType env K V pre = true → keysDistinct (sapp pre (.scons (.pair k v) r)) = true →
+    preFresh k pre = true := by
+  intro pre
+  induction pre with
+  | snil => intro _ _; rfl
+  | scons e t _ iht =>
+    intro hp h
+    rcases entriesHaveType_inv hp with h0 | ⟨k1, v1, r1, he, _, _, hr⟩
+    · cases h0
+    · cases he
+      rw [sapp_scons] at h
+      simp only [keysDistinct, Bool.and_eq_true] at h
+      simp only [preFresh, Bool.and_eq_true, Bool.not_eq_true']
+      exact ⟨keyFresh_sapp t hr h.1, iht hr h.2⟩
+  | _ => intro hp; simp [entriesHaveType] at hp
+
+/-- backward: the image `k'` of a key that differs from every key of `pre` is absent from the images -/
+theorem keyFresh_of_preFresh {env : Env} (hf : env.flagsOk = true) {n0 : Nat} {K V : Ty} {k k' : Val}
+    (hc : canEqual env K = true) (hk : hasType env K k = true) (hk' : hasType env K k' = true)
+    (e1 : goEq k k' = true) : ∀ pre done : Val, EntRel env n0 K V pre done →
+    entriesHaveType env K V pre = true → preFresh k pre = true → keyFresh k' done = true := by
+  intro pre
+  induction pre with
+  | snil => intro done h _ _; cases done <;> simp [EntRel] at h; rfl
+  | scons e t _ iht =>
+    intro done h hp hfr
+    rcases entriesHaveType_inv hp with h0 | ⟨kd, vd, r1, he, hkd, _, hr⟩
+    · cases h0
+    · cases he
+      cases done with
+      | scons e' s =>
+        cases e' with
+        | pair kd' vd' =>
+          simp only [EntRel] at h
+          simp only [preFresh, Bool.and_eq_true, Bool.not_eq_true'] at hfr
+          simp only [keyFresh, Bool.and_eq_true, Bool.not_eq_true']
+          exact ⟨key_transfer hf hc hk hk' hkd h.1.1 e1 (goEq_of_rel hf hc hkd h.1) hfr.1,
+            iht s h.2.2 hr hfr.2⟩
+        | _ => simp [EntRel] at h
+      | _ => simp [EntRel] at h
+  | _ => intro done h; simp [EntRel] at h
+
+/-- forward: the image of a key that differs from all later keys differs from all later images -/
+theorem keyFresh_rel {env : Env} (hf : env.flagsOk = true) {n0 : Nat} {K V : Ty} {kd kd' : Val}
+    (hc : canEqual env K = true) (hd : hasType env K kd = true) (hd' : hasType env K kd' = true)
+    (e2 : goEq kd kd' = true) : ∀ r s : Val, EntRel env n0 K V r s →
+    entriesHaveType env K V r = true → keyFresh kd r = true → keyFresh kd' s = true := by
+  intro r
+  induction r with
+  | snil => intro s h _ _; cases s <;> simp [EntRel] at h; rfl
+  | scons e t _ iht =>
+    intro s h hp hfr
+    rcases entriesHaveType_inv hp with h0 | ⟨k, v, r1, he, hk, _, hr⟩
+    · cases h0
+    · cases he
+      cases s with
+      | scons e' s' =>
+        cases e' with
+        | pair k' v' =>
+          simp only [EntRel] at h
+          simp only [keyFresh, Bool.and_eq_true, Bool.not_eq_true'] at hfr ⊢
+          have hne : goEq k kd = false := by rw [goEq_symm hf hc hk hd]; exact hfr.1
+          exact ⟨key_transfer hf hc hd hd' hk h.1.1 e2 (goEq_of_rel hf hc hk h.1) hne,
+            iht s' h.2.2 hr hfr.2⟩
+        | _ => simp [EntRel] at h
+      | _ => simp [EntRel] at h
+  | _ => intro s h; simp [EntRel] at h
+
+theorem keysDistinct_rel {env : Env} (hf : env.flagsOk = true) {n0 : Nat} {K V : Ty}
+    (hc : canEqual env K = true) : ∀ xs ys : Val, EntRel env n0 K V xs ys →
+    entriesHaveType env K V xs = true → keysDistinct xs = true → keysDistinct ys = true := by
+  intro xs
+  induction xs with
+  | snil => intro ys h _ _; cases ys <;> simp [EntRel] at h; rfl
+  | scons e t _ iht =>
+    intro ys h hp hd
+    rcases entriesHaveType_inv hp with h0 | ⟨k, v, r1, he, hk, _, hr⟩
+    · cases h0
+    · cases he
+      cases ys with
+      | scons e' s' =>
+        cases e' with
+        | pair k' v' =>
+          simp only [EntRel] at h
+          simp only [keysDistinct, Bool.and_eq_true] at hd ⊢
+          exact ⟨keyFresh_rel hf hc hk h.1.1 (goEq_of_rel hf hc hk h.1) t s' h.2.2 hr hd.1,
+            iht s' h.2.2 hr hd.2⟩
+        | _ => simp [EntRel] at h
+      | _ => simp [EntRel] at h
+  | _ => intro ys h; simp [EntRel] at h
+
+/-! ## Map entries: what the positional relation gives -/
+
+theorem valueAt_cons {env : Env} {K V : Ty} {k v k' w s : Val}
+    (h : Spec.valueAt env K V k v s = true) :
+    Spec.valueAt env K V k v (.scons (.pair k' w) s) = true := by
+  rw [Spec.valueAt.eq_def]; simp [h]
+
+theorem entriesIn_cons {env : Env} {K V : Ty} {k' w s : Val} : ∀ xs : Val,
+    Spec.entriesIn env K V xs s = true → Spec.entriesIn env K V xs (.scons (.pair k' w) s) = true := by
+  intro xs
+  induction xs with
+  | snil => intro _; rw [Spec.entriesIn.eq_def]
+  | scons e t _ iht =>
+    intro h
+    cases e with
+    | pair k v =>
+      rw [Spec.entriesIn.eq_def] at h ⊢
+      simp only [Bool.and_eq_true] at h ⊢
+      exact ⟨valueAt_cons h.1, iht h.2⟩
+    | _ => rw [Spec.entriesIn.eq_def] at h; simp at h
+  | _ => intro h; rw [Spec.entriesIn.eq_def] at h; simp at h
+
+theorem EntRel.out {env : Env} {n0 : Nat} {K V : Ty} : ∀ {xs ys : Val}, EntRel env n0 K V xs ys →
+    entriesHaveType env K V ys = true ∧ ys.slen = xs.slen ∧ Spec.entriesIn env K V xs ys = true ∧
+      (∀ a ∈ addrs ys, n0 ≤ a) := by
+  intro xs
+  induction xs with
+  | snil =>
+    intro ys h
+    cases ys <;> simp [EntRel] at h
+    exact ⟨by rw [entriesHaveType.eq_def], rfl, by rw [Spec.entriesIn.eq_def], by simp [addrs]⟩
+  | scons e t _ iht =>
+    intro ys h
+    cases e with
+    | pair k v =>
+      cases ys with
+      | scons e' s =>
+        cases e' with
+        | pair k' v' =>
+          simp only [EntRel] at h
+          obtain ⟨h1, h2, h3, h4⟩ := iht h.2.2
+          refine ⟨?_, ?_, ?_, ?_⟩
+          · rw [entriesHaveType.eq_def]; simp [h.1.1, h.2.1.1, h1]
+          · rw [slen_scons, slen_scons, h2]
+          · rw [Spec.entriesIn.eq_def]
+            simp only [Bool.and_eq_true]
+            refine ⟨?_, entriesIn_cons t h3⟩
+            rw [Spec.valueAt.eq_def]; simp [h.1.2.1, h.2.1.2.1]
+          · intro a ha
+            simp only [addrs, List.mem_append] at ha
+            rcases ha with (ha | ha) | ha
+            · exact h.1.2.2 a ha
+            · exact h.2.1.2.2 a ha
+            · exact h4 a ha
+        | _ => simp [EntRel] at h
+      | _ => simp [EntRel] at h
+    | _ => simp [EntRel] at h
+  | _ => intro ys h; simp [EntRel] at h
+
+theorem mapSet_fresh {env : Env} {K V : Ty} {k' v' : Val} : ∀ done : Val,
+    entriesHaveType env K V done = true → keyFresh k' done = true →
+    mapSet k' v' done = sapp done (.scons (.pair k' v') .snil) := by
+  intro done
+  induction done with
+  | snil => intro _ _; rfl
+  | scons e t _ iht =>
+    intro hd hfr
+    rcases entriesHaveType_inv hd with h0 | ⟨k, v, r1, he, _, _, hr⟩
+    · cases h0
+    · cases he
+      simp only [keyFresh, Bool.and_eq_true, Bool.not_eq_true'] at hfr
+      rw [mapSet, sapp_scons, iht hr hfr.2]
+      simp [hfr.1]
+  | _ => intro hd; simp [entriesHaveType] at hd
+
+theorem EntRel.snoc {env : Env} {n0 : Nat} {K V : Ty} {k v k' v' : Val}
+    (hk : Rel1 env n0 K k k') (hv : Rel1 env n0 V v v') : ∀ pre done : Val,
+    EntRel env n0 K V pre done →
+    EntRel env n0 K V (sapp pre (.scons (.pair k v) .snil)) (sapp done (.scons (.pair k' v') .snil)) := by
+  intro pre
+  induction pre with
+  | snil => intro done h; cases done <;> simp [EntRel] at h; simp [sapp, EntRel, hk, hv]
+  | scons e t _ iht =>
+    intro done h
+    cases e with
+    | pair k1 v1 =>
+      cases done with
+      | scons e' s =>
+        cases e' with
+        | pair k1' v1' =>
+          simp only [EntRel] at h
+          rw [sapp_scons, sapp_scons]
+          simp only [EntRel]
+          exact ⟨h.1, h.2.1, iht s h.2.2⟩
+        | _ => simp [EntRel] at h
+      | _ => simp [EntRel] at h
+    | _ => simp [EntRel] at h
+  | _ => intro done h; simp [EntRel] at h
+
+theorem entriesHaveType_snoc {env : Env} {K V : Ty} {k v : Val} (hk : hasType env K k = true)
+    (hv : hasType env V v = true) : ∀ pre : Val, entriesHaveType env K V pre = true →
+    entriesHaveType env K V (sapp pre (.scons (.pair k v) .snil)) = true := by
+  intro pre
+  induction pre with
+  | snil =>
+    intro _
+    have h0 : entriesHaveType env K V .snil = true := by rw [entriesHaveType.eq_def]
+    show entriesHaveType env K V (.scons (.pair k v) .snil) = true
+    rw [entriesHaveType.eq_def]; simp [hk, hv, h0]
+  | scons e t _ iht =>
+    intro hp
+    rcases entriesHaveType_inv hp with h0 | ⟨k1, v1, r1, he, hk1, hv1, hr⟩
+    · cases h0
+    · cases he
+      rw [sapp_scons, entriesHaveType.eq_def]; simp [hk1, hv1, iht hr]
+  | _ => intro hp; simp [entriesHaveType] at hp
+
+/-! ## Evaluation of texts: specifications used by the induction -/
+
+section Eval
+variable {τ : Type} (env : Env) (L : Lex τ)
+
+/-- the expression `e` evaluates, from any next address `n ≥ n0`, to a good image of `x : T` -/
+def ExprOK (n0 : Nat) (T : Ty) (x : Val) (e : G τ) : Prop :=
+  ∀ n, n0 ≤ n → ∃ v' n', evalE env L e n = .ok (v', n') ∧ n ≤ n' ∧ Rel1 env n0 T x v'
+
+/-- the function body evaluates, in any frame, to a good image of `x : T` -/
+def BodyOK (n0 : Nat) (T : Ty) (x : Val) (body : G τ) : Prop :=
+  ∀ fr n, n0 ≤ n → ∃ v' n', evalBody env L body fr n = .ok (v', n') ∧ n ≤ n' ∧ Rel1 env n0 T x v'
+
+/-- what the induction proves about a value `x`: the body printed for it at top level evaluates well,
+and in component position either nothing is printed (`x` is nil and the zero value is nil) or one
+assignment of a well-evaluating expression -/
+structure P (x : Val) : Prop where
+  top : ∀ T n0, hasType env T x = true → finiteFloats x = true → BodyOK env L n0 T x (top env L T x)
+  field : ∀ F n0, hasType env F x = true → finiteFloats x = true →
+    ((∀ tgt, field env L F x tgt = .skip) ∧ zero0 env F = .nilv ∧ Rel1 env n0 F x .nilv) ∨
+    ∃ e, (∀ tgt, field env L F x tgt = assign tgt e) ∧ ExprOK env L n0 F x e
+
+variable {env L}
+
+theorem addrs_of_basic {b : Basic} {v : Val} (h : basicHasType b v = true) : addrs v = [] := by
+  cases b <;> cases v <;> simp_all [basicHasType, addrs]
+
+theorem rel1_basic {n0 : Nat} {b : Basic} {x v' : Val} (ht : basicHasType b v' = true)
+    (he : leafEq x v' = true) : Rel1 env n0 (.basic b) x v' := by
+  refine ⟨?_, ?_, ?_⟩
+  · rw [hasType_basic (b := b) rfl]; exact ht
+  · rw [structEq_basic (b := b) rfl]; exact he
+  · rw [addrs_of_basic ht]; intro a ha; cases ha
+
+theorem leaf_eval (hL : L.Round) {n0 : Nat} {b : Basic} {x : Val} (hx : basicHasType b x = true)
+    (hfin : finiteFloats x = true) (n : Nat) :
+    ∃ v', evalE env L (.leaf b (L.print b x)) n = .ok (v', n) ∧ Rel1 env n0 (.basic b) x v' := by
+  obtain ⟨v', hp, ht, he⟩ := hL b x hx hfin
+  exact ⟨v', by rw [evalE.eq_1, hp], rel1_basic ht he⟩
+
+theorem finite_scons {h t : Val} (hf : finiteFloats (.scons h t) = true) :
+    finiteFloats h = true ∧ finiteFloats t = true := by
+  simpa [finiteFloats] using hf
+
+theorem leaves_eval (hL : L.Round) {n0 : Nat} {b : Basic} : ∀ xs : Val,
+    allHaveType env (.basic b) xs = true → finiteFloats xs = true → ∀ n,
+    ∃ ys, evalSeq env L (leaves L b xs) n = .ok (ys, n) ∧ SeqRel env n0 (.basic b) xs ys := by
+  intro xs
+  induction xs with
+  | snil => intro _ _ n; exact ⟨.snil, by show evalSeq env L .enil n = _; rw [evalSeq.eq_1], by simp [SeqRel]⟩
+  | scons x r _ ihr =>
+    intro ht hfin n
+    rcases allHaveType_inv ht with h0 | ⟨a, r', he, hx, hr⟩
+    · cases h0
+    · cases he
+      obtain ⟨hf1, hf2⟩ := finite_scons hfin
+      rw [hasType_basic (b := b) rfl] at hx
+      obtain ⟨v', hv, hrel⟩ := leaf_eval (env := env) (n0 := n0) hL hx hf1 n
+      obtain ⟨ys, hys, hrs⟩ := ihr hr hf2 n
+      refine ⟨.scons v' ys, ?_, by simp [SeqRel, hrel, hrs]⟩
+      rw [leaves, evalSeq.eq_2, hv]
+      simp only [Res.bind_ok, hys]
+  | _ => intro ht; simp [allHaveType] at ht
+
+theorem entryLeaves_eval (hL : L.Round) {n0 : Nat} {bk bv : Basic} : ∀ es : Val,
+    entriesHaveType env (.basic bk) (.basic bv) es = true → finiteFloats es = true → ∀ n,
+    ∃ ys, evalEntries env L (entryLeaves L bk bv es) n = .ok (ys, n) ∧
+      EntRel env n0 (.basic bk) (.basic bv) es ys := by
+  intro es
+  induction es with
+  | snil => intro _ _ n; exact ⟨.snil, by show evalEntries env L .enil n = _; rw [evalEntries.eq_1], by simp [EntRel]⟩
+  | scons e r _ ihr =>
+    intro ht hfin n
+    rcases entriesHaveType_inv ht with h0 | ⟨k, v, r', he, hk, hv, hr⟩
+    · cases h0
+    · cases he
+      obtain ⟨hf1, hf2⟩ := finite_scons hfin
+      have hf1' : finiteFloats k = true ∧ finiteFloats v = true := by simpa [finiteFloats] using hf1
+      rw [hasType_basic (b := bk) rfl] at hk
+      rw [hasType_basic (b := bv) rfl] at hv
+      obtain ⟨k', hk', hrk⟩ := leaf_eval (env := env) (n0 := n0) hL hk hf1'.1 n
+      obtain ⟨v', hv', hrv⟩ := leaf_eval (env := env) (n0 := n0) hL hv hf1'.2 n
+      obtain ⟨ys, hys, hrs⟩ := ihr hr hf2 n
+      refine ⟨.scons (.pair k' v') ys, ?_, by simp [EntRel, hrk, hrv, hrs]⟩
+      rw [entryLeaves, evalEntries.eq_2, hk']
+      simp only [Res.bind_ok, hv', hys]
+  | _ => intro ht; simp [entriesHaveType] at ht
+
+end Eval
+
 end GoString
 end Goderive
